@@ -621,6 +621,7 @@ def run(case: dict[str, Any]) -> dict[str, Any]:
             "steps": sim.engine_events,
             "ops": n,
             "probes": p,
+            "faults": {k: p[k] for k in ("fetch_interrupted_by_sibling", "fetch_past_end", "fetch_before_execute", "description_after_foreign_stmt", "description_mid_fetch") if p.get(k)},
             "strategy": "serial",
             "fingerprint": fp(m.kinds),
             "interleaving": fp([(k[0], k[1]) for k in m.kinds]),
